@@ -30,6 +30,7 @@ import ASV.Proofs.SerialPre
 import ASV.Proofs.SerialQual
 import ASV.Proofs.SerialDom
 import ASV.Proofs.SerialPfam
+import ASV.Proofs.SerialModule
 namespace ASV.C10
 open ASV ASV.Serial
 
@@ -507,6 +508,43 @@ theorem samplePfam_in_scope : samplePfam.WF :=
 example : (match samplePfam.toBio with
     | .ok b => (match Pfam.fromBio b with
       | .ok p' => Q.get? p'.dom.feat.quals "db_xref" == some ["GO:0009055", "GO:0016020", "GO:0016491"] && p'.dom.tool == "cluster_hmmer"
+      | _ => false)
+    | _ => false) = true := by decide +kernel
+
+/-! ### `aSModule` features (C14's model of the module qualifiers + the generic feature part) -/
+
+/-- a module feature made by antiSMASH, in a record that knows its domains by name: the written feature is read back
+    as the same module (domains, type, complete / starter / final / iterative — C14's `feature_roundtrip`) with the same
+    base-feature view (location, notes, free qualifiers).  The reading modelled is the repaired one (fixes/D71-C10:
+    `Module.from_biopython` hands its leftovers to `Feature.from_biopython`; the unrepaired code drops notes and free
+    qualifiers).  `ModF.WF`: made by antiSMASH, no codon start, free qualifiers use none of the module keys, what
+    `Module.__init__` checks, every domain known to the record under its name. -/
+theorem bio_roundtrip_module (t : Bool) (known : String → Option Modules.FDomain) (f : ModF) (h : f.WF known) (b : Bio)
+    (hb : f.toBio = .ok b) :
+    ∃ f', ModF.fromBio known b = .ok f' ∧ f'.m = f.m ∧ f'.feat.view t = f.feat.view t ∧ f'.feat.loc = f.feat.loc ∧
+      f'.feat.WF ∧ f'.feat.byAS = true :=
+  module_roundtrip t known f h b hb
+
+def modDomA : Modules.FDomain := ⟨"nrpspksdomains_ctg1_5_PKS_KS.1", "ctg1_5", 1⟩
+def modDomB : Modules.FDomain := ⟨"nrpspksdomains_ctg1_5_PKS_AT.1", "ctg1_5", 1⟩
+def modKnown (n : String) : Option Modules.FDomain := [modDomA, modDomB].find? (·.name == n)
+/-- a complete starter PKS module with a note -/
+def sampleModule : ModF :=
+  ⟨⟨.simple ⟨30, 330, .fwd⟩, "aSModule", ["a module note"], [], true, none⟩, ⟨[modDomA, modDomB], .pks, true, true, false, false⟩⟩
+theorem sampleModule_in_scope : sampleModule.WF modKnown := by
+  refine ⟨⟨nodupNil, rfl, by simp [sampleModule, Q.get?], by simp [sampleModule, Q.get?], ?_, fun c l' hc _ => by cases hc⟩,
+    rfl, rfl, rfl, fun k _ => rfl, rfl, ?_⟩
+  · intro p hp
+    simp only [sampleModule, Loc.parts, List.mem_cons, List.mem_nil_iff, or_false] at hp
+    subst hp
+    decide
+  · intro d hd
+    simp only [sampleModule, List.mem_cons, List.mem_nil_iff, or_false] at hd
+    rcases hd with e | e <;> subst e <;> decide +kernel
+/-- non-vacuity: it is written and read back — module and note -/
+example : (match sampleModule.toBio with
+    | .ok b => (match ModF.fromBio modKnown b with
+      | .ok f' => f'.m == sampleModule.m && Q.get? f'.feat.quals "note" == some ["a module note"] && f'.feat.byAS
       | _ => false)
     | _ => false) = true := by decide +kernel
 
